@@ -1,6 +1,7 @@
 //! Property check C10 — what was acknowledged survives any crash; what was not is invisible.
 mod fault_layer;
 mod host_layer;
+mod host_mseg;
 mod mseg_layer;
 mod probe;
 mod refence;
@@ -26,8 +27,9 @@ fn main() {
     r.assume("crash model = pure prefix truncation of the active (newest) segment plus the temp+rename stages of ledger and manifest; earlier segments are complete \
               (every transaction in them was acknowledged after an fsync of that file, which the interposer checks); \
               unsynced frame bytes are assumed to reach the disk in order (no block reordering)");
-    r.assume("multi-segment logs exist at the store layer only: TrustedRuntimeHost always opens segment 1 and has no rotation call, so host-layer crash points stay single-segment; \
-              the continuing writer of a multi-segment crash image re-opens the newest segment file that is left after recovery");
+    r.assume("TrustedRuntimeHost always appends to segment 1 and has no rotation call: multi-segment WRITE histories exist at the store layer only; at the host layer the one reachable \
+              multi-file layout (host log in segment 1 + an empty segment 2 created by a store opened on the next id) is enumerated with the host as reader and continuing writer; \
+              the continuing store-level writer of a multi-segment crash image re-opens the newest segment file that is left after recovery");
     r.assume("fsync coverage is observed by a link-time interposer of fsync/fdatasync in the harness binary (raw syscall forwarded)");
 
     if let Some(path) = r.replay.clone() {
@@ -51,6 +53,7 @@ fn main() {
                     walkit::mseg::build_multi(&d, &spec, 0).map(|log| mseg_layer::crash_during_recovery(&r, &[log]))
                 })
             }
+            Some("host-mseg") | Some("host-mseg-continue") => host_mseg::replay(&case, &mut st),
             Some("host") | Some("host-continue") => host_layer::replay(&case, &mut st),
             Some("store-fault") | Some("host-fault") => fault_layer::replay(&case, &mut st),
             other => Err(format!("replay of layer {other:?} not supported")),
@@ -91,6 +94,9 @@ fn main() {
     } else {
         None
     };
+    if only.is_empty() || only.contains("host") {
+        host_mseg::run(&r, host.as_ref());
+    }
     if only.is_empty() || only.contains("fault") {
         fault_layer::run(&r, host.as_ref());
     }
